@@ -42,6 +42,20 @@ def leapday_weather(job):
     shim.set_weather(fn)
 
 
+def shortage_shape(cfg):
+    """make the configured crew_count of the routine component-level method smaller than LDAR-Sim's
+    own estimate (same site generator as make_config)"""
+    rng = random.Random(cfg.get("weather_seed", 0))
+    have = len(cfg["sites"])
+    for i in range(have, 24):
+        cfg["sites"].append({"id": i + 1, "lat": rng.choice([20.0, 40.0, 60.0]), "lon": rng.choice([-120.0, -100.0, -80.0]),
+                             "type": rng.choice(["tA", "tB"]), "equipment": rng.randint(1, 3)})
+    cfg["n_sites"] = len(cfg["sites"])
+    cfg["methods"]["OGI"].update({"survey_time": 420, "max_workday": 8, "t_bw_sites": [30.0], "consider_daylight": False,
+                                  "surveys_per_year": 24, "crew_count": 1, "months": list(range(1, 13))})
+    cfg["methods"]["OGI"]["cost"]["upfront"] = 512.0
+
+
 def make_cfgs(ctx, n, flavour):
     cfgs = []
     for k in range(n):
@@ -78,6 +92,10 @@ def make_cfgs(ctx, n, flavour):
             cfg["methods"]["OGI"]["cost"]["upfront"] = 512.0
             cfg["methods"]["OGI"]["crew_count"] = 2
             cfg["programs"] = cfg["programs"] + [{"name": "P_OGI_again", "methods": ["OGI"]}]
+        if k == 1 or (not ctx.quick and k % 4 == 3):
+            # a genuine crew shortage: LDAR-Sim's own estimate for OGI is 2 crews (24 sites x 24 surveys a
+            # year x 450 min a visit / (365 x 450 min a day)), the operator owns ONE
+            shortage_shape(cfg)
         cfg["_verif_seed"] = seed
         cfgs.append(cfg)
     # a 1- or 2-day period (first day = last day: upfront, budget and weather on the very first day)
@@ -276,6 +294,22 @@ def oracle_c08(ctx, cfg, prog, events, violate):
         if len(per_crew) > n_crews or (dep is not None and dep[10] > n_crews):
             violate("C08:wholerun:more-crews-than-available", "more crews deployed than the method has",
                     {"prog": prog, "day": day, "method": method})
+    # crews the method was built with (as it reports on every deploy_crews) vs the configured crew_count
+    flagged = set()
+    for (day, method), dep in deploy.items():
+        m = cfg["methods"][method]
+        want = 1 if m["deployment_type"] == "stationary" else m.get("crew_count", 0)
+        if want > 0 and method not in flagged and (dep[9] != want or dep[10] > want):
+            flagged.add(method)
+            violate("C08:wholerun:method-has-other-than-configured-crews",
+                    "a method runs with a number of crews different from its configured crew_count",
+                    {"prog": prog, "day": day, "method": method, "configured": want, "method_reports": dep[9], "deployed": dep[10]})
+        if want > 0 and dep[8] is not None:
+            minutes = sum(e[8] + (e[10] - e[9]) for e in surveys.get((day, method), []))
+            if minutes > want * expected_budget(cfg, method):
+                violate("C08:wholerun:crew-minutes-exceed-configured-crews-x-budget",
+                        "crew-minutes of a day exceed configured crews x day budget",
+                        {"prog": prog, "day": day, "method": method, "configured": want, "minutes": minutes})
     requeue_check(ctx, cfg, prog, events, violate)
     # nearest weather cell, recomputed from the site's coordinates and the file's axes
     site_loc = {str(s_["id"]): (s_["lat"], s_["lon"]) for s_ in cfg["sites"]}
